@@ -8,6 +8,7 @@ from harness import common as C
 from harness import gen_dispatch as GD
 from harness import impl_dispatch as D
 from harness.props import c01 as base
+from harness import textcases as T
 
 ALPHABET = [2, 3, 4, 5, 2.0, True, "s", {}, [], None]
 CLASS = {"Call": 0, "CallResult": 1, "CallError": 2, "ProtocolError": 3, "PropertyConstraintViolationError": 4,
@@ -167,6 +168,11 @@ def body_factory(tier, seed):
                 pmeta.append(replay)
             except TypeError:
                 pass
+        # 3b. the text level: json.loads / unpack against JsonParse.loads / unpack_text
+        cov = T.run_text(rep, "C08", tier, seed, support_ok)
+        for k_, v_ in cov.items():
+            rep.coverage[k_] = v_
+        rep.coverage["evaluations"] += cov.get("texts", 0) + cov.get("dumps_cases", 0)
         if not support_ok:
             return
         # 4. the model on the same inputs
@@ -212,7 +218,7 @@ def body_factory(tier, seed):
 
 
 def run(rep, tier, seed):
-    return C.standard_run(rep, "C08", ["Model/CaseFrame.vo"], [body_factory(tier, seed + 1000 * i) for i in range(3 if tier == "thorough" else 1)], rule=(
+    return C.standard_run(rep, "C08", ["Model/CaseFrame.vo", "Model/CaseText.vo"], [body_factory(tier, seed + 1000 * i) for i in range(3 if tier == "thorough" else 1)], rule=(
         "exhaustive: all JSON arrays of length 0..5 (quick) / 0..7 (thorough) over the alphabet [2,3,4,5,2.0,true,'s',{},[],null] "
         "through the real unpack and, tallied per (first element, length), through the model; plus malformed / hostile / "
         "random frames (str and bytes, truncated, huge literals, deep nesting, surrogates, non-UTF-8) and random messages through "
